@@ -111,7 +111,7 @@ prop("C15", "model_checking",
 
 claim("C15", "model_checking",
       "CBMC step contracts on the real console.c (callees substituted by contract stubs that are enforced in their own harnesses), complete unwinding of the constant-bound loops, bounded sequence-level harnesses",
-      "Per-character step of console_run from every invariant state and every next character, do_tokenize on every 80-byte buffer content, table operations on every fill: complete inside the stated name bound; "
+      "Per-character step of console_run from every invariant state and every next character, do_tokenize on every 80-byte buffer content (thorough tier; the quick tier runs two 24-byte-window stand-ins, labelled bounded), table operations on every fill: complete inside the stated name bound; "
       "streams of any length by induction. Tokenizer equivalence (lines <= %d) and console_eval delivery (texts <= %d) are bounded." % (EQ_LEN, TEXT_LEN),
       "I/O and fibre scheduling stubbed; command bodies by contract; LP64 and ILP32 data models for the memory-safety harnesses; native replay is LP64 only.",
       "DESIGN.md 5.C15")
